@@ -24,7 +24,8 @@ class PollerModel:
         for b in fb.bodies(common.DAEMON):
             if b.defkind == 'Closure':
                 continue
-            if any(fn and is_chrony_query(fn['path']) for _, _, fn in common.user_calls(b)) and b.back_edges():
+            if b.back_edges() and common.reaches_call(fb, b, is_chrony_query) and \
+                    any(fn and 'recv' in mir.callee_name(fn).split('::')[-1] for _, _, fn in common.user_calls(b)):
                 cands.append(b)
         if not cands:
             chk.missing(rule, 'poll loop (a daemon function with a loop that queries chronyd)')
